@@ -276,27 +276,42 @@ def part_pattern_sequences(res, rng, n):
     for s in range(n):
         tracks, lines = rng.randint(1, 6), rng.randint(1, 8)
         ncell = tracks * lines
-        start = rng.choice(("fresh", "loaded"))
         model = [bytes(8)] * ncell
-        if start == "loaded":
+        start = rng.choice(("fresh", "loaded", "loaded-embedded"))
+        holder = None
+        if start in ("loaded", "loaded-embedded"):
             img = [rcell() for _ in range(ncell)]
             q0 = api.Pattern(tracks=tracks, lines=lines)
             q0.raw_data = b"".join(img)
             p0 = api.Project()
             p0.attach_pattern(q0)
-            proj = api.read_sunvox_file(__import__("io").BytesIO(p0.read()))
-            pat = proj.patterns[0]
+            if start == "loaded":
+                proj = api.read_sunvox_file(__import__("io").BytesIO(p0.read()))
+                pat = proj.patterns[0]
+            else:
+                # the pattern lives in the project embedded in a MetaModule that came from a file; "saved" below means the
+                # OUTER file
+                outer0 = api.Project()
+                outer0.new_module(api.m.MetaModule, project=p0)
+                holder = api.read_sunvox_file(__import__("io").BytesIO(outer0.read()))
+                proj = holder.modules[1].project
+                pat = proj.patterns[0]
             model = list(img)
         else:
             pat = api.Pattern(tracks=tracks, lines=lines)
             proj = None
         history = [start]
         for k in range(rng.randint(1, 6)):
-            op = rng.choice(("assign", "clear", "cell", "bulk", "read", "read-data"))
+            op = rng.choice(("assign", "assign-long", "clear", "cell", "bulk", "read", "read-data"))
             history.append(op)
             if op == "assign":
                 model = image(tracks, lines)
                 pat.raw_data = b"".join(model)
+            elif op == "assign-long":
+                # an image with more bytes than lines * tracks cells: the cells are the first lines * tracks, the rest is not
+                # part of the pattern (now or later)
+                model = image(tracks, lines)
+                pat.raw_data = b"".join(model) + b"".join(rcell() for _ in range(rng.randint(1, 4)))
             elif op == "clear":
                 pat.clear()
                 model = [bytes(8)] * ncell
@@ -322,7 +337,11 @@ def part_pattern_sequences(res, rng, n):
             res.count("pattern_sequences")
             want = b"".join(model)
             saved = None
-            if proj is not None and rng.random() < 0.5:
+            if holder is not None:
+                emb = [c for c in iffparse.parse(holder.read()) if c[0] == b"CHDT" and c[1][:4] == b"SVOX"][0][1]
+                saved = [c for c in iffparse.parse(emb) if c[0] == b"PDTA"][0][1]
+                res.count("pattern_sequences_inside_loaded_metamodule")
+            elif proj is not None and rng.random() < 0.5:
                 saved = [c for c in iffparse.parse(proj.read()) if c[0] == b"PDTA"][0][1]
             got = pat.raw_data
             if (saved is not None and saved != want) or got != want:
